@@ -200,12 +200,13 @@ def shape_job(I, lhs_units, rhs_units, res, prefixes, budget, deadline):
         harness.explore(I, res, entry, on_path, prefixes, budget, deadline)
 
 def case_for(m, le, re_, which):
+    I = harness.interp_for('dev')
     l = ul.conc_entries(m, le); r = ul.conc_entries(m, re_)
     lt = ul.spell_compound(l); rt_ = ul.spell_compound(r)
-    if lt is None or rt_ is None:
-        return {'op': 'compound_factor', 'lhs': l, 'rhs': r, 'which': which}
-    if which == 'factor': return {'op': 'query', 'text': f'1 {rt_} to {lt}', 'lhs': l, 'rhs': r}
-    return {'op': 'query', 'text': f'1 {lt} {"+" if which == "add" else "-"} 1 {rt_}', 'lhs': l, 'rhs': r}
+    if which == 'factor': c = ul.factor_case(I, l, r, 1)
+    else: c = {'op': 'numeric_op', 'fn': which, 'a': ul.numeric_json(I, 1, l), 'b': ul.numeric_json(I, 1, r)}
+    c.update({'lhs': ul.names_list(l), 'rhs': ul.names_list(r), 'text': f'1 {lt} {"to" if which == "factor" else which} 1 {rt_}'})
+    return c
 
 # ---------------------------------------------------------------- replay side
 def confirm(c, outs):
@@ -218,7 +219,13 @@ def confirm(c, outs):
             want = {k: v for k, v in c['expect'].items() if v}
             if {k: v for k, v in got.items() if v} != want: return True, f'{prof}: Unit::powers gives {got}, reference {want}'
             continue
-        if case['op'] != 'query': continue
+        l = [tuple(e) for e in case.get('lhs', [])]; rr = [tuple(e) for e in case.get('rhs', [])]
+        if case['op'] == 'factor':
+            same = U.dims_of_compound(l) == U.dims_of_compound(rr)
+            res_ = o.get('ok') or {}
+            if res_.get('refused'): return True, f'{prof}: conversion between proportional units refused'
+            if same != res_.get('commensurable'): return True, f'{prof}: commensurable={same} but factor says {res_.get("commensurable")}'
+            continue
         rs = o.get('ok')
         if not isinstance(rs, list) or len(rs) != 1: return True, f'{prof}: unexpected {o}'
         r = rs[0]
@@ -227,7 +234,6 @@ def confirm(c, outs):
             u = r['ok']['unit']
             if len(u) != 2: return True, f'{prof}: result unit {r["ok"]["unit_text"]!r} instead of the quantity\'s unit'
             continue
-        l = [(u, p, f) for u, p, f in case['lhs']]; rr = [(u, p, f) for u, p, f in case['rhs']]
         same = U.dims_of_compound(l) == U.dims_of_compound(rr)
         if same and 'err' in r: return True, f'{prof}: commensurable but refused: {r["err"]}'
         if not same and 'ok' in r: return True, f'{prof}: incommensurable but accepted: {r["ok"]["value"]} {r["ok"]["unit_text"]}'
